@@ -6,10 +6,69 @@ ID = "C01"
 MODULE = "C01"
 IMPORTS = "Bytes PathSan PathSanProofs"
 PROFILES = ("dev",)
-THEOREMS = []
-RULE = ""
-ASSUMPTIONS = []
-TRUSTED = []
+INSIDE = ("exists names : list bytes, names <> [] /\\ Forall (fun s => proper_name s = true) names /\\ "
+          "descend (fst P) names = Some (File c)")
+THEOREMS = [
+    ("accepted_path_confined",
+     "forall p : bytes, sanitize_path p = Ok tt -> exists (t : bytes) (pre : list bytes) (last_ : bytes), "
+     "percent_decode p = c_slash :: t /\\ segments t = pre ++ [last_] /\\ Forall plain_seg pre /\\ "
+     "(forall a b : list bytes, pre = a ++ b -> walk [] a = Some (rev (names_of a))) /\\ "
+     "walk [] (segments t) = (if is_empty last_ || is_dot last_ then Some (rev (names_of pre)) "
+     "else if is_dotdot last_ then match rev (names_of pre) with [] => None | _ :: st => Some st end "
+     "else Some (last_ :: rev (names_of pre)))"),
+    ("served_content_is_inside_public",
+     "forall (p host public f : bytes) (root cwd P : pos) (c : bytes), sanitize_path p = Ok tt -> "
+     "request_fs_path host public p = Ok (Some f) -> wf_pos root -> wf_pos cwd -> "
+     "resolve_path root cwd (host ++ [c_slash] ++ public) = Some P -> read_path root cwd f = Some c -> " + INSIDE),
+    ("served_file_is_inside_public",
+     "forall (h : host_cfg) (root cwd P : pos) (m : meth) (ov : option bytes) (p : bytes) (r : reply) (ev : list event) (c : bytes), "
+     "benign_host h -> wf_pos root -> wf_pos cwd -> resolve_path root cwd (h_path h ++ [c_slash] ++ h_public h) = Some P -> "
+     "serve h (read_path root cwd) m ov None p = (r, ev) -> r_body r = Some c -> " + INSIDE),
+    ("unsafe_is_rejected",
+     "forall p : bytes, unsafe (percent_decode p) <-> sanitize_path p = Err E_UNSAFE"),
+    ("unsafe_is_400_and_silent",
+     "forall (h : host_cfg) (fs : bytes -> option bytes) (m : meth) (ov : option bytes) (cached : option reply) (p : bytes), "
+     "unsafe (percent_decode p) -> let '(r, ev) := serve h fs m ov cached p in "
+     "r_status r = 400 /\\ r_body r = None /\\ r_from_cache r = false /\\ silent ev"),
+    ("internal_routes_unreachable",
+     "forall p : bytes, sanitize_path p = Ok tt -> ~ has_dot_slash p /\\ ~ has_dot_slash (percent_decode p) /\\ "
+     "(forall key : bytes, has_dot_slash key -> p <> key /\\ percent_decode p <> key)"),
+    ("internal_prepare_only_via_prime",
+     "forall (h : host_cfg) (fs : bytes -> option bytes) (m : meth) (cached : option reply) (p : bytes) (r : reply) "
+     "(ev : list event) (key : bytes), benign_host h -> serve h fs m None cached p = (r, ev) -> "
+     "In (EPrepareSingle key) ev \\/ In (EPrepareRun key) ev -> key = primed_path h p /\\ ~ has_dot_slash key"),
+    ("one_decoding",
+     "forall p d : bytes, decoded_for_use p = Some d -> "
+     "decoded_for_check p = d /\\ util_percent_decode p = d /\\ d = percent_decode p"),
+    ("accepted_path_never_panics",
+     "forall host public p : bytes, sanitize_path p = Ok tt -> request_fs_path host public p <> Panic"),
+]
+RULE = ("(a) direct calls of kvarn_utils::parse::sanitize_request (on an http::Request built from the target), kvarn_utils::percent_decode, "
+        "kvarn_utils::make_path and the path construction of get_response against the Coq model (correspondence) and against the "
+        "executable specification 'percent-decoded bytes contain ./, do not start with /, or start with //' (oracle); targets are "
+        "bounded-exhaustive over the token alphabet {/ . %2e %2E %2f %2F %5c %00 %25 %c0%af %ff a e-acute ..} (quick: all of length <= 4 "
+        "after the leading '/', thorough: <= 6, evaluated in batches of 14^3), all token strings of length <= 3 without the leading '/' "
+        "(other request-target forms), a hand-written list of traversal spellings, a full-detail sample, random longer targets, random "
+        "mutations, arbitrary bytes (mostly refused by http::Uri: out_of_domain); plus make_path, percent_decode on arbitrary text and "
+        "from_utf8 / from_utf8_lossy on byte strings around every UTF-8 boundary. (b) the real request pipeline "
+        "kvarn::handle_connection over a loopback TCP pair against a fixture tree with sentinel files inside and outside public/. "
+        "distinct_nontrivial counts distinct (component, input, model outcome class) triples; batch cases count once each, their targets "
+        "are reported as targets_in_batches")
+ASSUMPTIONS = [
+    "no symbolic links below or at the public directory and a case-sensitive POSIX file system (the tree model of theorems 1b/1c)",
+    "Unix: Path::is_relative() is 'does not start with /' (the model and the harness run on Linux)",
+    "the operator's options extension_default / folder_default are benign (their percent-decoding contains no './' and does not start "
+    "with '/'; true for the defaults 'html' and 'index.html', proved as benign_defaults) — hypothesis of theorems 1c and 3b",
+    "theorems 1c/3b speak about the built-in Prime extension 'Expand . and /' and about Prime extensions returning a /./ override; "
+    "other operator-written Prime/Prepare extensions that build their own paths are outside the property",
+    "http::Uri acceptance is modelled for origin-form targets, '*' and bare reg-names; other forms are out of domain of the correspondence",
+    "the response cache is represented by the entry found for the request key (its filling is C03/C04's subject); theorem 2b shows it is "
+    "bypassed for unsafe paths",
+]
+TRUSTED = ["modelled: utils/src/parse.rs sanitize_request (path part), parse::uri; utils/src/lib.rs percent_decode, make_path; src/lib.rs "
+           "handle_cache / get_response / handle_request as far as sanitize result, path construction, Prepare lookup and read_file are "
+           "concerned; src/extensions.rs resolve_prime (uri_redirect), resolve_prepare; percent_encoding::percent_decode, "
+           "core::str::from_utf8 and String::from_utf8_lossy are transcribed and compared with the real functions on every run"]
 EXHAUSTIVE = False
 KERNEL_SAMPLE = 40
 
@@ -164,3 +223,20 @@ def signature(c, m):
     if c.comp == "pathsan.batch":
         return "batch"
     return m[:40]
+
+
+LEVEL_TEXT = ("Machine-checked Coq theorems, for ALL byte strings, over a byte-level model of percent_decode / sanitize_request / make_path / "
+              "the pipeline short-circuit: an accepted path walks only downwards from the public directory until its last segment and a "
+              "returned file content always comes from inside the public directory of an arbitrary file tree (POSIX resolution without "
+              "symlinks); exactly the paths whose percent-decoded bytes contain './', are not rooted or start with '//' are rejected, "
+              "answered 400 without cache, Prepare or file read; no accepted path (raw or decoded) contains './', so the internal /./ routes "
+              "are reachable only through a Prime result; check and use decode once and identically. The model is tied to /repo on every "
+              "run by a differential run of the real functions and of the real request pipeline against the extracted model.")
+LEVEL_NOTE = ("Trusted: Coq kernel, extraction (ExtrOcamlBasic) reduced by an in-kernel recheck sample, the hand transcription of the Rust "
+              "code into Model/PathSan.v as validated by the differential run, the POSIX path-resolution model (no symlinks). No axioms. "
+              "One defect repaired on the way (sanitize tested the undecoded text when the decoding was not UTF-8).")
+TECHNIQUE = "Coq proof (model satisfies spec for all inputs) + differential correspondence model vs. implementation (direct calls and loopback pipeline)"
+
+
+def extra_coverage(cases, impl, model, spec):
+    return {"targets_in_batches": sum(c.meta.get("targets", 0) for c in cases if c.comp == "pathsan.batch")}
